@@ -42,6 +42,13 @@ def programs(tier):
                     yield L, pos, act, 'fire-then-stop', None, sk
                 if pos < L and act[0] == 'mstop':
                     yield L, pos, act, 'stop-then-call', pos, False
+    # a generator `stopped` handler that, after Y further steps, starts a chain of K events: however long the chain, run()
+    # returns only after all of it has been dispatched (and the next cycle does not begin with left-overs)
+    for L in (0, 1):
+        for act in (('mstop', None), ('mstop', 3), ('sysexit', None), ('kbd',)):
+            for K in (2, 6, 12):
+                for Y in (0, 1, 2, 3):
+                    yield L, L, act, 'fire-then-stop', None, ('genchain', K, Y)
 
 
 def build(program):
@@ -70,6 +77,11 @@ def build(program):
     handlers.append(('hx', 'x', 2, [('ret', 1)]))
     if extra == 'stopped-fires':
         handlers.append(('hs', 'stopped', 2, [('fire', 'x')]))
+    elif isinstance(extra, tuple) and extra[0] == 'genchain':
+        _, K, Y = extra
+        handlers.append(('hs', 'stopped', 2, ('gen', [('y', None)] * Y + [('fire', 'k1')])))
+        for i in range(1, K + 1):
+            handlers.append(('hk%d' % i, 'k%d' % i, 2, [('fire', 'k%d' % (i + 1))] if i < K else [('ret', None)]))
     elif extra == 'stopped-calls':
         handlers.append(('hs', 'stopped', 2, ('gen', [('call', 'cleanup'), ('fire', 'x')])))
         handlers.append(('hcl', 'cleanup', 2, [('ret', 5)]))
@@ -174,7 +186,8 @@ def judge(program, w, marks):
 
 
 def pj(program):
-    return {'L': program[0], 'pos': program[1], 'action': list(program[2]), 'order': program[3], 'gen': program[4], 'extra': program[5]}
+    return {'L': program[0], 'pos': program[1], 'action': list(program[2]), 'order': program[3], 'gen': program[4],
+            'extra': list(program[5]) if isinstance(program[5], tuple) else program[5]}
 
 
 def _work(part, nparts, payload):
@@ -218,7 +231,7 @@ def replay(wj):
     if wj.get('part') == 'threads':
         from checks import c08_threads
         return c08_threads.replay(wj)
-    program = (wj['L'], wj['pos'], tuple(wj['action']), wj['order'], wj['gen'], wj['extra'])
+    program = (wj['L'], wj['pos'], tuple(wj['action']), wj['order'], wj['gen'], tuple(wj['extra']) if isinstance(wj['extra'], list) else wj['extra'])
     w, marks = execute(program, bool(wj.get('lazy')))
     bad = judge(program, w, marks)
     text = 'program %r\ncycles: %r\nlog:\n  %s\n' % (pj(program), marks, '\n  '.join(map(repr, (x for x in w.log if x[0] != 'iter'))))
